@@ -414,3 +414,43 @@ Lemma nondeg_index_error_spec :
 Proof.
   split; [exact api_nondeg_no_index_error|]. exists nd_x1, nd_x2, [1], [0; 3]. exact (proj1 ex_nondeg_after_edit).
 Qed.
+
+(* ------------------------------------------------------------------ where the stored network comes from *)
+
+Lemma op_origin o c st sn : s_sum (fst (apply_op o c st)) = Some sn -> s_sum st = Some sn \/ sn = snap_of o (c_x c).
+Proof.
+  unfold apply_op. destruct (c_op c) as [| | | |f| | |]; simpl; auto.
+  - unfold op_summary. destruct (hs_net (c_x c)); simpl; auto. intros E. inversion E. auto.
+  - unfold op_linkage. destruct (s_sum st) eqn:E; simpl; rewrite ?E; auto.
+  - unfold op_one, op_summary, op_linkage. destruct (s_sum st) as [sn0|] eqn:E; simpl.
+    + destruct (s_ld st) eqn:El; simpl; rewrite ?E, ?El; simpl; rewrite ?E; auto.
+    + destruct (hs_net (c_x c)); simpl; rewrite ?E; auto. intros E'. inversion E'. auto.
+  - unfold op_nondeg. destruct (negb (o_stoich o)); auto. destruct (s_sum st) eqn:E; simpl; rewrite ?E; auto.
+    destruct (hs_net (c_x c)); simpl; rewrite ?E; auto. destruct (nondeg _ _ _ _); simpl; rewrite ?E; auto.
+  - unfold op_crn, op_summary. destruct (hs_net (c_x c)) eqn:En; simpl; auto.
+    assert (forall d, s_sum (fst (op_nondeg o (c_x c) (c_mis c) d)) = s_sum d) as Hn.
+    { intros d. unfold op_nondeg. destruct (negb (o_stoich o)); auto. destruct (s_sum d) eqn:E; simpl; rewrite ?E; auto.
+      destruct (hs_net (c_x c)); simpl; rewrite ?E; auto. destruct (nondeg _ _ _ _); simpl; rewrite ?E; auto. }
+    destruct f; [rewrite Hn|]; simpl; intros E'; inversion E'; auto.
+Qed.
+
+(** the network the object describes is one of the networks handed to a call; in particular when the network is never edited
+    (every call carries the same x) the object describes x: every reported value is the value of a fresh analysis of x *)
+Theorem api_origin o cs sn : s_sum (run_calls o cs ast_init) = Some sn -> exists c, In c cs /\ sn = snap_of o (c_x c).
+Proof.
+  unfold run_calls. assert (G : forall st, s_sum (fold_left (fun s c => fst (apply_op o c s)) cs st) = Some sn ->
+                                 s_sum st = Some sn \/ exists c, In c cs /\ sn = snap_of o (c_x c)).
+  { induction cs as [|c cs IH]; intros st H; simpl in *; [left; exact H|].
+    destruct (IH _ H) as [H'|(c' & I & E)]; [|right; exists c'; split; [right; exact I|exact E]].
+    destruct (op_origin o c st sn H') as [H''|E]; [left; exact H''|right; exists c; split; [left; reflexivity|exact E]]. }
+  intros H. destruct (G ast_init H) as [H'|H']; [discriminate H'|exact H'].
+Qed.
+
+Corollary api_no_edit_fresh o cs x sn : (forall c, In c cs -> c_x c = x) ->
+  s_sum (run_calls o cs ast_init) = Some sn -> sn = snap_of o x.
+Proof. intros Hx H. destruct (api_origin o cs sn H) as (c & I & ->). rewrite (Hx c I). reflexivity. Qed.
+
+Lemma api_origin_spec o cs sn :
+  (s_sum (run_calls o cs ast_init) = Some sn -> exists c, In c cs /\ sn = snap_of o (c_x c)) /\
+  (forall x, (forall c, In c cs -> c_x c = x) -> s_sum (run_calls o cs ast_init) = Some sn -> sn = snap_of o x).
+Proof. split; [apply api_origin|intros x; apply api_no_edit_fresh]. Qed.
